@@ -265,7 +265,7 @@ theorem fingerprinted_hostname_agrees (E : Env) (hostOf : Str → Option Str) (s
       | cons d ds =>
         simp only [orNone, List.isEmpty_cons, Bool.false_eq_true, if_false]
 
-/-! ## URLs the parser refuses (FX-C07-FPTOTAL)
+/-! ## URLs the parser refuses (FX-C07-c806a8b)
 
 `fingerprint_url` used to raise on them (it unpacked the string `normalize_url` returned); it now
 returns that string, `url.lower()`.  "The host of `fingerprint_url(u)`" is then the host the
